@@ -1,10 +1,181 @@
 import GormModel.Drv.Util
+import GormModel.Model.Scan
 open Lean
 namespace Gorm.Drv
+open Gorm.Scan
 
-/-- line-protocol handler for C03 (ops are JSON arrays `[opname, args…]`); returns `none` for ops it does not own -/
+/-! JSON codec for the C03 ops.  Integers travel as decimal strings (64-bit values do not survive a float64
+    JSON decoder), byte strings as arrays of numbers. -/
+
+def intJ (n : Int) : Json := Json.str (toString n)
+def jBigInt? (j : Json) : Option Int :=
+  match j with
+  | Json.str s => s.toInt?
+  | _ => jInt? j
+
+def parseTy (s : String) : Option Ty :=
+  match s with
+  | "bool" => some .bool | "int" => some .int | "i8" => some .i8 | "i16" => some .i16 | "i32" => some .i32
+  | "i64" => some .i64 | "uint" => some .uint | "u8" => some .u8 | "u16" => some .u16 | "u32" => some .u32
+  | "u64" => some .u64 | "f32" => some .f32 | "f64" => some .f64 | "str" => some .str | "bytes" => some .bytes
+  | "time" => some .time | _ => none
+
+def tyStr : Ty → String
+  | .bool => "bool" | .int => "int" | .i8 => "i8" | .i16 => "i16" | .i32 => "i32" | .i64 => "i64"
+  | .uint => "uint" | .u8 => "u8" | .u16 => "u16" | .u32 => "u32" | .u64 => "u64" | .f32 => "f32"
+  | .f64 => "f64" | .str => "str" | .bytes => "bytes" | .time => "time"
+
+def parseBytes (j : Json) : Option (List Nat) := do
+  (← jArr? j).toList.mapM jNat?
+
+/-- ["b",bool] | ["i",ty,"n"] | ["f",ty,"bits"] | ["s",[..]] | ["y",[..]] | ["t","sec",nsec] -/
+def parseVal (j : Json) : Option Val := do
+  let a ← jArr? j
+  match ← jStr? (arg a 0) with
+  | "b" => some (.bool (← jBool? (arg a 1)))
+  | "i" => some (.int (← parseTy (← jStr? (arg a 1))) (← jBigInt? (arg a 2)))
+  | "f" => some (.flt (← parseTy (← jStr? (arg a 1))) (← jBigInt? (arg a 2)).toNat)
+  | "s" => some (.str (← parseBytes (arg a 1)))
+  | "y" => some (.bytes (← parseBytes (arg a 1)))
+  | "t" => some (.time (← jBigInt? (arg a 1)) (← jNat? (arg a 2)))
+  | _ => none
+
+def valJ : Val → Json
+  | .bool b => Json.arr #[Json.str "b", Json.bool b]
+  | .int t n => Json.arr #[Json.str "i", Json.str (tyStr t), intJ n]
+  | .flt t b => Json.arr #[Json.str "f", Json.str (tyStr t), intJ b]
+  | .str s => Json.arr #[Json.str "s", natListJ s]
+  | .bytes s => Json.arr #[Json.str "y", natListJ s]
+  | .time s n => Json.arr #[Json.str "t", intJ s, natJ n]
+
+def parseOptVal (j : Json) : Option (Option Val) :=
+  match j with
+  | Json.null => some none
+  | _ => (parseVal j).map some
+
+def fvalJ : FVal → Json
+  | none => Json.null
+  | some v => valJ v
+
+def parseW (n : Nat) : Option W :=
+  match n with | 8 => some .w8 | 16 => some .w16 | 32 => some .w32 | 64 => some .w64 | _ => none
+
+/-- [base, width, ptr, named, tu] -/
+def parseKind (j : Json) : Option FKind := do
+  let a ← jArr? j
+  let w := (jNat? (arg a 1)).getD 0
+  let base ← match ← jStr? (arg a 0) with
+    | "bool" => some Base.bool
+    | "int" => (parseW w).map Base.int
+    | "uint" => (parseW w).map Base.uint
+    | "float" => some (Base.float (w == 32))
+    | "string" => some Base.string
+    | "bytes" => some Base.bytes
+    | "time" => some Base.time
+    | _ => none
+  let tu ← match ← jStr? (arg a 4) with
+    | "sec" => some TimeUnit.sec | "milli" => some TimeUnit.milli | "nano" => some TimeUnit.nano | _ => none
+  some { base := base, ptr := ← jBool? (arg a 2), named := ← jBool? (arg a 3), tu := tu }
+
+/-- ["nil"] | ["val",named,Val] | ["ptr",named,ty,Val|null] | ["pp",named,ty,"outer-nil"|null|Val]
+    | ["valuer","err"|null|Val] | ["other"] -/
+def parseSrc (j : Json) : Option Src := do
+  let a ← jArr? j
+  match ← jStr? (arg a 0) with
+  | "nil" => some .nil
+  | "val" => some (.val (← jBool? (arg a 1)) (← parseVal (arg a 2)))
+  | "ptr" => some (.ptr (← jBool? (arg a 1)) (← parseTy (← jStr? (arg a 2))) (← parseOptVal (arg a 3)))
+  | "pp" =>
+    let named ← jBool? (arg a 1)
+    let t ← parseTy (← jStr? (arg a 2))
+    match arg a 3 with
+    | Json.str "outer-nil" => some (.pp named t none)
+    | x => some (.pp named t (some (← parseOptVal x)))
+  | "valuer" =>
+    match arg a 1 with
+    | Json.str "err" => some (.valuer none)
+    | x => some (.valuer (some (← parseOptVal x)))
+  | "other" => some .other
+  | _ => none
+
+def srcJ : Src → Json
+  | .nil => Json.arr #[Json.str "nil"]
+  | .val n v => Json.arr #[Json.str "val", Json.bool n, valJ v]
+  | .ptr n t p => Json.arr #[Json.str "ptr", Json.bool n, Json.str (tyStr t), fvalJ p]
+  | .pp n t none => Json.arr #[Json.str "pp", Json.bool n, Json.str (tyStr t), Json.str "outer-nil"]
+  | .pp n t (some p) => Json.arr #[Json.str "pp", Json.bool n, Json.str (tyStr t), fvalJ p]
+  | .valuer none => Json.arr #[Json.str "valuer", Json.str "err"]
+  | .valuer (some p) => Json.arr #[Json.str "valuer", fvalJ p]
+  | .other => Json.arr #[Json.str "other"]
+
+def resJ : R → Json
+  | .ok fv => Json.arr #[Json.str "ok", fvalJ fv]
+  | .error .failed => Json.arr #[Json.str "err", Json.str "failed"]
+  | .error .parse => Json.arr #[Json.str "err", Json.str "parse"]
+  | .error .unmodelled => Json.arr #[Json.str "unmodelled"]
+
+def intListJ (l : List Int) : Json := Json.arr (l.map (fun n => Json.num (JsonNumber.fromInt n))).toArray
+def parseIntList (j : Json) : Option (List Int) := do (← jArr? j).toList.mapM jInt?
+
 def handleC03 (op : String) (args : Array Json) : Option Json := do
   match op with
+  | "c03.set" =>
+    -- ["c03.set", kind, cur, src] → result of field.Set
+    let k ← parseKind (arg args 1)
+    let cur ← parseOptVal (arg args 2)
+    let s ← parseSrc (arg args 3)
+    some (resJ (setField k cur s))
+  | "c03.valueof" =>
+    let k ← parseKind (arg args 1)
+    let fv ← parseOptVal (arg args 2)
+    let (s, z) := valueOf k fv
+    some (Json.arr #[srcJ s, Json.bool z])
+  | "c03.rt" =>
+    -- ["c03.rt", kind, fv] → [representable, "store-err" | result]
+    let k ← parseKind (arg args 1)
+    let fv ← parseOptVal (arg args 2)
+    let r := match store (valueOf k fv).1 with
+      | .error _ => Json.str "create-error"
+      | .ok d => match load k d with
+        | .error .unmodelled => Json.arr #[Json.str "unmodelled"]
+        | .error _ => Json.str "load-error"
+        | .ok s => resJ (setField k k.zero s)
+    some (Json.arr #[Json.bool (representable k fv), r])
+  | "c03.backfill" =>
+    -- ["c03.backfill", reversed, hasAutoPk, inc, keys, rowsAffected, lastId|null]
+    let rev ← jBool? (arg args 1)
+    let auto ← jBool? (arg args 2)
+    let inc ← jInt? (arg args 3)
+    let ks ← parseIntList (arg args 4)
+    let ra ← jInt? (arg args 5)
+    let lid := jInt? (arg args 6)
+    some (intListJ (createBackfillSlice rev auto inc ks ⟨ra, lid⟩))
+  | "c03.backfillmaps" =>
+    let rev ← jBool? (arg args 1)
+    let present ← (← jArr? (arg args 2)).toList.mapM jBool?
+    let id ← jInt? (arg args 3)
+    some (Json.arr ((backfillMaps rev present id).map optIntJ).toArray)
+  | "c03.createmaps" =>
+    -- ["c03.createmaps", returning, ptrDest, max, n] → null | [[key|null…], len]
+    let ret ← jBool? (arg args 1)
+    let p ← jBool? (arg args 2)
+    let m ← jInt? (arg args 3)
+    let n ← jNat? (arg args 4)
+    match createMaps ret p m n with
+    | none => some (Json.str "error")
+    | some (ks, len) => some (Json.arr #[Json.arr (ks.map optIntJ).toArray, natJ len])
+  | "c03.batches" =>
+    let n ← jNat? (arg args 1)
+    let b ← jNat? (arg args 2)
+    some (Json.arr ((batchBounds n b n 0).map (fun (i, e) => natListJ [i, e])).toArray)
+  | "c03.create" =>
+    -- ["c03.create", returning, maxRowid, keys, batchSize(0 = plain Create)] → [mem, rows]
+    let ret ← jBool? (arg args 1)
+    let m ← jInt? (arg args 2)
+    let ks ← parseIntList (arg args 3)
+    let b ← jNat? (arg args 4)
+    let (mem, rows, _) := if b == 0 then createSlice ret m ks else createInBatches ret m ks b
+    some (Json.arr #[intListJ mem, intListJ rows])
   | _ => none
 
 end Gorm.Drv
